@@ -207,7 +207,12 @@ Fixpoint success_of (chain : list (scond * Z)) (dflt : Z) (fl : list bool) : Z :
   | (c, v) :: rest => if scond_eval c fl then v else success_of rest dflt fl
   end.
 
-Definition caught (cls : string) (l : list string) : bool := existsb (String.eqb cls) l.
+(* `except C`: C catches the raised class or one of its bases.  The only class the oracle raises is numpy.linalg.LinAlgError,
+   a subclass of ValueError (-> Exception -> BaseException). *)
+Definition bases_of (cls : string) : list string :=
+  if String.eqb cls "LinAlgError" then ["LinAlgError"; "ValueError"; "Exception"; "BaseException"] else [cls; "Exception"; "BaseException"].
+Definition caught (cls : string) (l : list string) : bool :=
+  existsb (fun c => existsb (String.eqb c) (bases_of cls)) l.
 
 (* after the loop: the return statement reads `res`, which only a successful fit binds *)
 Definition finish (p : robust_src) (res_bound : bool) (fl : list bool) (tr : list attempt) : rf_result :=
